@@ -50,6 +50,9 @@ func judgeOCRAV(c *Ctx, k ocraVCase) {
 		if len(g) > 0 {
 			subs = append(subs, hexs([]byte(g[:len(g)-1])), hexs([]byte(g[1:])))
 		}
+		for _, h := range gen.HostileCodes(gen.New(uint64(len(g))*7919+uint64(g[0])), g) {
+			subs = append(subs, hexs([]byte(h)))
+		}
 		subs = append(subs, hexs([]byte(g+"0")), hexs([]byte(" "+g)), hexs([]byte(g+" ")), hexs([]byte(strings.Repeat("０", 1)+g[min(1, len(g)):])))
 	}
 	for _, sh := range subs {
